@@ -29,15 +29,21 @@
 (*  - a failed transaction still creates the (empty) receiver account;     *)
 (*  - two proposals applied in one block: the later merge starts from the  *)
 (*    active parameters.                                                   *)
-(* Not modelled here: the stake limiter (ModelLimiter = off: the bounded   *)
-(* models have fewer than three validators reported, where the code does   *)
-(* not consult it), contract execution (EvmBridge.tla), the mempool        *)
+(*  - the stake limiter's table is built at the beginning of the block     *)
+(*    from the delegatees as COMMITTED, before evidence is processed: a     *)
+(*    staking / unstaking against a delegatee slashed in the same block is  *)
+(*    refused ("power object is not equal").                                *)
+(* Not modelled here: contract execution (EvmBridge.tla; RigoConf.tla      *)
+(* adopts the recorded effect of contract transactions), the mempool        *)
 (* overlay's content (CheckTx is specified as having no effect on the      *)
 (* consensus state, which is what C06 demands).                            *)
+(*                                                                         *)
+(* s.rank : [name -> Nat] is the byte order of the addresses (ties in the  *)
+(* power order, order of validator updates); it is part of the state so    *)
+(* that one module serves the bounded models (a constant) and the traces   *)
+(* (recorded per trace).                                                   *)
 (***************************************************************************)
 EXTENDS RigoProps, TLC
-
-CONSTANTS Rank   \* [name -> Nat]: byte order of the addresses (ties in power order, update order)
 
 ---------------------------------------------------------------------------
 Put(f, k, v) == [x \in DOMAIN f \cup {k} |-> IF x = k THEN v ELSE f[x]]
@@ -63,19 +69,71 @@ Recount(d, name) == [d EXCEPT !.total = SumPow(d.stakes), !.self = SumPowIf(d.st
 NewDelegatee == [self |-> 0, total |-> 0, slashed |-> 0, stakes |-> <<>>, missed |-> <<>>, pub |-> 33]
 
 \* power order of the code: total desc, number of stakes desc, address desc
-Before(da, a, db, b) ==
+RankOf(rk, a) == IF a \in DOMAIN rk THEN rk[a] ELSE 0
+
+Before(rk, da, a, db, b) ==
   \/ da.total > db.total
   \/ da.total = db.total /\ Len(da.stakes) > Len(db.stakes)
-  \/ da.total = db.total /\ Len(da.stakes) = Len(db.stakes) /\ Rank[a] > Rank[b]
+  \/ da.total = db.total /\ Len(da.stakes) = Len(db.stakes) /\ RankOf(rk, a) > RankOf(rk, b)
 
 \* the first n names of `cands` in power order
-TopN(delegs, cands, n) ==
-  {a \in cands : Cardinality({b \in cands : Before(delegs[b], b, delegs[a], a)}) < n}
+TopN(rk, delegs, cands, n) ==
+  {a \in cands : Cardinality({b \in cands : Before(rk, delegs[b], b, delegs[a], a)}) < n}
 
 \* sequence of a set of names in ascending address order
-RECURSIVE AscSeq(_)
-AscSeq(S) == IF S = {} THEN <<>>
-             ELSE LET m == CHOOSE x \in S : \A y \in S : Rank[x] <= Rank[y] IN <<m>> \o AscSeq(S \ {m})
+RECURSIVE AscSeq(_, _)
+AscSeq(rk, S) == IF S = {} THEN <<>>
+                 ELSE LET m == CHOOSE x \in S : \A y \in S : RankOf(rk, x) <= RankOf(rk, y) IN <<m>> \o AscSeq(rk, S \ {m})
+
+\* the names of `cands` as a sequence in power order (PowerOrderDelegatees)
+RECURSIVE PowerSeq(_, _, _)
+PowerSeq(rk, delegs, cands) ==
+  IF cands = {} THEN <<>>
+  ELSE LET m == CHOOSE x \in cands : \A y \in cands \ {x} : Before(rk, delegs[x], x, delegs[y], y)
+       IN <<m>> \o PowerSeq(rk, delegs, cands \ {m})
+
+---------------------------------------------------------------------------
+(* the stake limiter (ctrlers/stake/limiter.go): per-block limits on how much voting power may move *)
+
+NoLimiter == [on |-> FALSE, base |-> 0, updated |-> 0, objs |-> <<>>]
+
+\* Reset: the table is the eligible delegatees in power order; base = power of the first maxValidatorCnt of them
+LimReset(rk, cands, g, on) ==
+  LET order == PowerSeq(rk, cands, DOMAIN cands) IN
+  [on |-> on, updated |-> 0,
+   objs |-> [i \in 1..Len(order) |-> [v |-> order[i], pow |-> cands[order[i]].total]],
+   base |-> SumSet([i \in 1..Len(order) |-> IF i <= g.maxValidatorCnt THEN cands[order[i]].total ELSE 0], 1..Len(order))]
+
+\* the limiter's own order: power descending, address descending
+LimBefore(rk, x, y) == x.pow > y.pow \/ (x.pow = y.pow /\ RankOf(rk, x.v) > RankOf(rk, y.v))
+RECURSIVE LimSort(_, _)
+LimSort(rk, S) ==
+  IF S = {} THEN <<>>
+  ELSE LET m == CHOOSE x \in S : \A y \in S \ {x} : LimBefore(rk, x, y) IN <<m>> \o LimSort(rk, S \ {m})
+
+\* CheckLimit(delegatee v with current total power `total`, change `diff`): [ok, lim]
+LimCheck(rk, lim, g, v, total, diff) ==
+  IF lim.objs = <<>> THEN [ok |-> TRUE, lim |-> lim]
+  ELSE
+  LET n == Len(lim.objs)
+      mx == g.maxValidatorCnt
+      ix == {i \in 1..n : lim.objs[i].v = v}
+      known == ix # {}
+      ri == IF known THEN CHOOSE i \in ix : TRUE ELSE 0          \* 1-based position, 0: a new face
+      pw == IF known THEN lim.objs[ri].pow ELSE total
+      indiv == diff <= 0 \/ ((total + diff) * 100) \div (lim.base + diff) <= g.maxIndividualStakeRatio
+      leaving == known /\ ri <= mx /\ diff < 0
+      entering == (~known \/ ri > mx) /\ diff > 0
+      up1 == IF leaving
+               THEN IF n > mx /\ pw + diff < lim.objs[mx + 1].pow THEN lim.updated + pw ELSE lim.updated - diff
+               ELSE lim.updated
+      up2 == IF entering /\ n >= mx /\ mx >= 1 /\ pw + diff > lim.objs[mx].pow THEN up1 + lim.objs[mx].pow ELSE up1
+      ratioOK == lim.base > 0 /\ (up2 * 100) \div lim.base <= g.maxUpdatableStakeRatio
+  IN IF ~indiv \/ pw # total \/ ~ratioOK THEN [ok |-> FALSE, lim |-> lim]
+     ELSE [ok |-> TRUE,
+           lim |-> [lim EXCEPT !.updated = up2,
+                               !.objs = IF known THEN LimSort(rk, {IF x.v = v THEN [x EXCEPT !.pow = @ + diff] ELSE x : x \in SeqSet(lim.objs)})
+                                        ELSE LimSort(rk, SeqSet(lim.objs))]]
 
 ---------------------------------------------------------------------------
 (* BeginBlock *)
@@ -126,9 +184,13 @@ ProcessVotes(s, votes, H) ==
                             m == IF d.missed # <<>> /\ d.missed[Len(d.missed)] >= sh THEN d.missed ELSE Append(d.missed, sh)
                             lo == IF sh - g.signedBlocksWindow < 0 THEN 0 ELSE sh - g.signedBlocksWindow
                             jail == g.signedBlocksWindow - MissCount(m, lo, sh) < g.minSignedBlocks
+                            \* marks before the window are dropped after counting - but only if there are at least two of
+                            \* them (BlockMarker.CountInWindow: `preIdx > 0`)
+                            stale == Cardinality({i \in 1..Len(m) : m[i] < lo})
+                            kept == IF stale >= 2 THEN SubSeq(m, stale + 1, Len(m)) ELSE m
                         IN IF jail
                              THEN [s EXCEPT !.frozen = FreezeAll(@, d.stakes, H + g.lazyRewardBlocks), !.delegs = Drop(@, vt.v)]
-                             ELSE [s EXCEPT !.delegs[vt.v].missed = m]
+                             ELSE [s EXCEPT !.delegs[vt.v].missed = kept]
                    ELSE s
        IN ProcessVotes(s1, Tail(votes), H)
 
@@ -140,6 +202,8 @@ BeginBlock(s, hdr) ==
                       !.delegs = SlashDelegs(@, hdr.evidence, g.slashRatio),
                       \* candidates for the validator set: delegatees as COMMITTED whose own stake meets the minimum
                       !.vol.allDelegs = [d \in {x \in DOMAIN s.tree.delegs : s.tree.delegs[x].self >= MinPower(g)} |-> s.tree.delegs[d]],
+                      !.vol.limiter = LimReset(s.rank, [d \in {x \in DOMAIN s.tree.delegs : s.tree.delegs[x].self >= MinPower(g)} |-> s.tree.delegs[d]],
+                                               g, Len(s.vol.lastVals) >= 3),
                       !.proposer = hdr.proposer]
       s1 == IF hdr.votes = <<>> THEN s0 ELSE ProcessVotes(s0, hdr.votes, H)
   IN [s |-> s1, resp |-> [events |-> <<>>]]
@@ -149,8 +213,12 @@ BeginBlock(s, hdr) ==
 
 SigValid(tx) == tx.auth = "valid"
 
+MaxInt64 == <<807, 775, 854, 36, 372, 223, 9>>     \* 2^63 - 1
+
 Common0(s, tx) ==
+  /\ tx.fromLen = 20 /\ tx.toLen = 20
   /\ BLt(tx.amount, Two255)
+  /\ BLeq(tx.gas, MaxInt64)
   /\ tx.gasPrice = s.gov.gasPrice
   /\ ~BLt(Fee(tx, s.gov), BMul(s.gov.minTrxGas, s.gov.gasPrice))
   /\ SigValid(tx)
@@ -182,6 +250,11 @@ ValidStaking(s, tx) ==
                /\ (ToNat(BDivE18(g.minDelegatorStake)) = 0 \/ ToNat(BDivE18(g.minDelegatorStake)) <= pw)
                /\ (s.delegs[tx.to].self * 100) \div (s.delegs[tx.to].total + pw) >= g.minSelfStakeRatio
 
+\* the limiter is consulted last, and only while at least three validators are reported
+LimitStaking(s, tx) ==
+  IF Len(s.vol.lastVals) < 3 THEN [ok |-> TRUE, lim |-> s.vol.limiter]
+  ELSE LimCheck(s.rank, s.vol.limiter, s.gov, tx.to, IF tx.to \in DOMAIN s.delegs THEN s.delegs[tx.to].total ELSE 0, ToNat(BDivE18(tx.amount)))
+
 ExecStaking(s, tx) ==
   LET pw == ToNat(BDivE18(tx.amount))
       d0 == IF tx.to \in DOMAIN s.delegs THEN s.delegs[tx.to] ELSE NewDelegatee
@@ -195,6 +268,12 @@ ValidUnstaking(s, tx) ==
   /\ tx.to \in DOMAIN s.delegs
   /\ LET ix == StakeIdx(s.delegs[tx.to], tx.payload.stake) IN
        ix # {} /\ s.delegs[tx.to].stakes[CHOOSE i \in ix : TRUE].from = tx.from
+
+LimitUnstaking(s, tx) ==
+  IF Len(s.vol.lastVals) < 3 THEN [ok |-> TRUE, lim |-> s.vol.limiter]
+  ELSE LET d == s.delegs[tx.to]
+           st == d.stakes[CHOOSE i \in StakeIdx(d, tx.payload.stake) : TRUE]
+       IN LimCheck(s.rank, s.vol.limiter, s.gov, tx.to, d.total, 0 - st.pow)
 
 ExecUnstaking(s, tx) ==
   LET d0 == s.delegs[tx.to]
@@ -275,8 +354,14 @@ DeliverTx(s, tx) ==
     LET s0 == IF tx.to \in DOMAIN s.accts THEN s ELSE [s EXCEPT !.accts = Put(@, tx.to, EmptyAcct)] IN
     IF ~Common0(s0, tx) \/ ~Common1(s0, tx) THEN Fail(s0, tx)
     ELSE CASE tx.type = "transfer"  -> ExecTransfer(s0, tx)
-           [] tx.type = "staking"   -> IF ValidStaking(s0, tx) THEN ExecStaking(s0, tx) ELSE Fail(s0, tx)
-           [] tx.type = "unstaking" -> IF ValidUnstaking(s0, tx) THEN ExecUnstaking(s0, tx) ELSE Fail(s0, tx)
+           [] tx.type = "staking"   -> IF ValidStaking(s0, tx)
+                                         THEN LET lr == LimitStaking(s0, tx) IN
+                                              IF lr.ok THEN ExecStaking([s0 EXCEPT !.vol.limiter = lr.lim], tx) ELSE Fail(s0, tx)
+                                         ELSE Fail(s0, tx)
+           [] tx.type = "unstaking" -> IF ValidUnstaking(s0, tx)
+                                         THEN LET lr == LimitUnstaking(s0, tx) IN
+                                              IF lr.ok THEN ExecUnstaking([s0 EXCEPT !.vol.limiter = lr.lim], tx) ELSE Fail(s0, tx)
+                                         ELSE Fail(s0, tx)
            [] tx.type = "withdraw"  -> IF ValidWithdraw(s0, tx) THEN ExecWithdraw(s0, tx) ELSE Fail(s0, tx)
            [] tx.type = "proposal"  -> IF ValidProposal(s0, tx) THEN ExecProposal(s0, tx) ELSE Fail(s0, tx)
            [] tx.type = "voting"    -> IF ValidVoting(s0, tx) THEN ExecVoting(s0, tx) ELSE Fail(s0, tx)
@@ -286,6 +371,13 @@ DeliverTx(s, tx) ==
 ---------------------------------------------------------------------------
 (* EndBlock *)
 
+\* options in descending order of votes, ties in their original order (what sort.Sort does for so few elements)
+RECURSIVE SortOpts(_)
+SortOpts(os) ==
+  IF os = <<>> THEN <<>>
+  ELSE LET b == CHOOSE i \in 1..Len(os) : (\A j \in 1..Len(os) : os[j].votes <= os[i].votes) /\ (\A j \in 1..(i - 1) : os[j].votes < os[i].votes)
+       IN <<os[b]>> \o SortOpts([j \in 1..(Len(os) - 1) |-> IF j < b THEN os[j] ELSE os[j + 1]])
+
 \* close the proposals whose window ended, as COMMITTED by the previous block
 RECURSIVE FreezeProps(_, _)
 FreezeProps(s, ids) ==
@@ -294,9 +386,9 @@ FreezeProps(s, ids) ==
            p == s.tree.props[id]
            best == MaxVotes(p)
            adopted == best >= p.majority
-           top == CHOOSE i \in 1..Len(p.opts) : p.opts[i].votes = best
+           top == CHOOSE i \in 1..Len(p.opts) : p.opts[i].votes = best /\ \A j \in 1..(i - 1) : p.opts[j].votes < best
            s1 == [s EXCEPT !.props = Drop(@, id)]
-           s2 == IF adopted THEN [s1 EXCEPT !.fprops = Put(@, id, [p EXCEPT !.major = [some |-> TRUE, v |-> p.opts[top]]])] ELSE s1
+           s2 == IF adopted THEN [s1 EXCEPT !.fprops = Put(@, id, [p EXCEPT !.major = [some |-> TRUE, v |-> p.opts[top]], !.opts = SortOpts(p.opts)])] ELSE s1
        IN FreezeProps(s2, ids \ {id})
 
 \* apply adopted proposals whose applying height is reached, as COMMITTED by the previous block
@@ -309,6 +401,12 @@ ApplyProps(s, ids) ==
        IN ApplyProps([s EXCEPT !.fprops = Drop(@, id), !.govPending = [some |-> TRUE, v |-> new], !.govLedger = [some |-> TRUE, v |-> new]],
                      ids \ {id})
 
+\* the parameter sets the end of this block may leave pending: when several proposals are applied in one block each
+\* merge starts from the ACTIVE parameters, so the last one in the ledger's key order (not visible here) wins
+ApplyCandidates(s) ==
+  {Merge(s.gov, s.docs[s.tree.fprops[id].major.v.doc].fields.f) :
+     id \in {x \in DOMAIN s.tree.fprops : s.tree.fprops[x].apply <= s.h /\ x \in DOMAIN s.fprops}}
+
 \* refund the unbonding stakes that matured, as COMMITTED by the previous block
 RECURSIVE Refund(_, _)
 Refund(s, keys) ==
@@ -319,11 +417,11 @@ Refund(s, keys) ==
        IN Refund([s1 EXCEPT !.frozen = SelectSeq(@, LAMBDA x : x.key # k)], keys \ {k})
 
 \* validator updates: merge of the previously reported set and the new top selection by address
-ValUpdates(old, new, delegs) ==
+ValUpdates(rk, old, new, delegs) ==
   LET oldNames == {old[i].v : i \in 1..Len(old)}
       oldPow(v) == (CHOOSE x \in SeqSet(old) : x.v = v).pow
       changed == {v \in oldNames \cup new : v \notin new \/ v \notin oldNames \/ oldPow(v) # delegs[v].total}
-      order == AscSeq(changed)
+      order == AscSeq(rk, changed)
   IN [i \in 1..Len(order) |-> [v |-> order[i], pow |-> IF order[i] \in new THEN delegs[order[i]].total ELSE 0, powNeg |-> FALSE]]
 
 EndBlock(s) ==
@@ -334,10 +432,11 @@ EndBlock(s) ==
       s3 == IF s.proposer # "none" /\ s.feeSum # <<>> THEN AddBal(s2, s.proposer, s.feeSum) ELSE s2
       s4 == Refund(s3, {x.key : x \in {y \in SeqSet(s.tree.frozen) : y.refund <= h /\ \E z \in SeqSet(s3.frozen) : z.key = y.key}})
       cands == s.vol.allDelegs
-      new == TopN(cands, DOMAIN cands, g.maxValidatorCnt)
-      ups == ValUpdates(s.vol.lastVals, new, cands)
-      newSeq == AscSeq(new)
-      s5 == [s4 EXCEPT !.vol.lastVals = [i \in 1..Len(newSeq) |-> [v |-> newSeq[i], pow |-> cands[newSeq[i]].total]]]
+      new == TopN(s.rank, cands, DOMAIN cands, g.maxValidatorCnt)
+      ups == ValUpdates(s.rank, s.vol.lastVals, new, cands)
+      newSeq == PowerSeq(s.rank, cands, new)     \* the reported set is kept in power order
+      s5 == [s4 EXCEPT !.vol.lastVals = [i \in 1..Len(newSeq) |-> [v |-> newSeq[i], pow |-> cands[newSeq[i]].total]],
+                       !.vol.limiter.on = Len(newSeq) >= 3]
   IN [s |-> s5, resp |-> [valUpdates |-> ups, events |-> <<>>]]
 
 ---------------------------------------------------------------------------
@@ -361,8 +460,9 @@ CheckTx(s, tx) == [s |-> s, resp |-> [ok |-> TRUE]]
 Restart(s) ==
   LET prevDelegs == IF s.lastH - 1 \in DOMAIN s.hist /\ s.lastH > 1 THEN s.hist[s.lastH - 1] ELSE [x \in {} |-> 0]
       cands == [d \in {x \in DOMAIN prevDelegs : prevDelegs[x].self >= MinPower(s.prevGov)} |-> prevDelegs[d]]
-      new == AscSeq(TopN(cands, DOMAIN cands, s.prevGov.maxValidatorCnt))
+      new == PowerSeq(s.rank, cands, TopN(s.rank, cands, DOMAIN cands, s.prevGov.maxValidatorCnt))
   IN [s |-> [s EXCEPT !.vol.lastVals = [i \in 1..Len(new) |-> [v |-> new[i], pow |-> cands[new[i]].total]],
-                      !.vol.allDelegs = cands],
+                      !.vol.allDelegs = cands,
+                      !.vol.limiter = [NoLimiter EXCEPT !.on = Len(new) >= 3]],
       resp |-> [h |-> s.lastH, hash |-> "h"]]
 =============================================================================
